@@ -246,7 +246,7 @@ def handle (st : St) (toks : List String) : St × Option String :=
     | some op, some g =>
       let (a, r) := st.asm.step op g
       ({ st with asm := a },
-       some s!"{asmStr a} {asmResStr r} wr={repr a.wantsReadEvent} ww={repr a.wantsWriteEvent}")
+       some s!"{asmStr a} {asmResStr r} wr={repr a.wantsReadEvent} ww={repr a.wantsWriteEvent}{match r with | .ok (_ :: _) => " cb=" ++ asmStr a | _ => ""}")
     | _, _ => (st, none)
   | ["wrappers"] =>
     (st, some (String.intercalate "," (Tls.Gen.Wrappers.facts.map fun (n, b) => s!"{n}={boolOut b}")))
